@@ -1151,6 +1151,13 @@ func (o *Oracle) poll() {
 		}
 		// the latest configuration is an entry of the server's own log (or the one its newest snapshot
 		// carries): after a truncation that removes it the server falls back to the committed one (C07)
+		if _, cidx, _, lidx := r.VerifConfigurations(); lidx > cidx {
+			if inc.cfgUncommittedSince == 0 {
+				inc.cfgUncommittedSince = w.sim.Seq()
+			}
+		} else {
+			inc.cfgUncommittedSince = 0
+		}
 		if _, _, latest, lidx := r.VerifConfigurations(); lidx > 0 {
 			okCfg := lidx <= n.disk.snapIndex()
 			if e, ok := n.disk.ent(lidx); ok && e.Type == raft.LogConfiguration {
